@@ -112,6 +112,10 @@ func c04Signers() []c04Signer {
 			ca := c04CA(kind)
 			return ca, []*world.Ident{ca, p.Root}, nil, nil // signer = the leaf itself, filled by the caller
 		}},
+		{"end-entity-own-key-no-keyusage-no-basicconstraints", false, func(kind string) (*world.Ident, []*world.Ident, []*x509.Certificate, *world.Ident) {
+			ca := c04CA(kind)
+			return ca, []*world.Ident{ca, p.Root}, nil, nil // signer = the leaf itself (a leaf without keyUsage and basicConstraints)
+		}},
 		{"unrelated-key", false, func(kind string) (*world.Ident, []*world.Ident, []*x509.Certificate, *world.Ident) {
 			ca := c04CA(kind)
 			un := world.Issue(nil, world.CertOpt{CN: "unrelated " + kind, IsCA: true, KeyKind: kind, KeyIdx: 4, Serial: big.NewInt(33)})
@@ -161,7 +165,11 @@ func c04Doc(c c04Case) (doc []byte, leaf *world.Ident, chain [][]*x509.Certifica
 		kind = "ec"
 	}
 	issuer, extra, trusted, signer := sg.Make(kind)
-	leaf = world.Issue(issuer, world.CertOpt{CN: "c04 client", Serial: big.NewInt(101), KeyKind: kind, KeyIdx: 5, CDP: []string{c04URL}})
+	lo := world.CertOpt{CN: "c04 client", Serial: big.NewInt(101), KeyKind: kind, KeyIdx: 5, CDP: []string{c04URL}}
+	if strings.Contains(sg.Name, "no-keyusage-no-basicconstraints") {
+		lo.NoKeyUsage, lo.NoBC = true, true
+	}
+	leaf = world.Issue(issuer, lo)
 	if signer == nil {
 		signer = leaf
 	}
@@ -271,7 +279,18 @@ func c04Run(c c04Case) (inForce bool, probe Verdict, entitled bool, note string)
 			return
 		}
 		w.Net.Serve(c04URL, "candidate", doc)
-		err := w.Repo.UpdateCRL(loc, chains)
+		var err error
+		if c.Path == "refresh-retry-after-signer-handshake" {
+			// periodic refresh (no chains from a caller) rejects or accepts the candidate; then a handshake presents the
+			// chain again (AddCRL may adopt a new signer certificate from it); then the next periodic refresh
+			w.Repo.UpdateCRLs()
+			w.Repo.AddCRL(loc, chains)
+			w.Repo.UpdateCRLs()
+			probe = w.IsRevoked(leaf.Cert, loc)
+			inForce = probe.Revoked // the candidate lists the probe, the good v1 does not
+			return
+		}
+		err = w.Repo.UpdateCRL(loc, chains)
 		probe = w.IsRevoked(leaf.Cert, loc)
 		inForce = err == nil
 		if probe.Revoked && err != nil {
@@ -300,7 +319,7 @@ func RunC04(tier string, args []string) int {
 	judge := func(c c04Case) {
 		evals++
 		inForce, probe, entitled, note := c04Run(c)
-		if strings.HasPrefix(note, "setup:") && !c04Signers()[c.Signer].Entitled && c.Path == "refresh" && strings.Contains(c04Signers()[c.Signer].Name, "cRLSign") {
+		if strings.HasPrefix(note, "setup:") && !c04Signers()[c.Signer].Entitled && c.Path != "first-load" && strings.Contains(c04Signers()[c.Signer].Name, "cRLSign") {
 			// the issuing CA of this variant may not sign CRLs at all, so no "previous good CRL" can exist: outside the premise
 			premiseFalse++
 			return
@@ -341,7 +360,7 @@ func RunC04(tier string, args []string) int {
 	algs := append(append([]world.SigAlg{}, world.SupportedAlgs...), world.RSAPSS, world.ED25519, world.BogusAlg)
 	if tier != "thorough" {
 		// quick: all algorithms with the entitled signer, the full signer x AKI matrix for one algorithm per key type
-		for _, path := range []string{"first-load", "refresh"} {
+		for _, path := range []string{"first-load", "refresh", "refresh-retry-after-signer-handshake"} {
 			for _, a := range algs {
 				for aki := range c04AKIForms {
 					judge(c04Case{Alg: a, Signer: 0, AKI: aki, Path: path, Flip: -1})
@@ -357,7 +376,7 @@ func RunC04(tier string, args []string) int {
 			}
 		}
 	} else {
-		for _, path := range []string{"first-load", "refresh"} {
+		for _, path := range []string{"first-load", "refresh", "refresh-retry-after-signer-handshake"} {
 			for _, a := range algs {
 				for s := range c04Signers() {
 					for aki := range c04AKIForms {
